@@ -130,7 +130,71 @@ const KEY: &str = include_str!("/repo/lib/assets/key.pem");
 const CERT2: &str = include_str!("/repo/lib/assets/cert_test.pem");
 const KEY2: &str = include_str!("/repo/lib/assets/key_test.pem");
 
+/// scripted backends: answer every request with 200 and a two-byte tag ("b0" / "b1")
+fn start_backends(base: u16) {
+    for i in 0..2u16 {
+        let l = std::net::TcpListener::bind(("127.0.0.1", base + 4 + i)).expect("bind scripted backend");
+        std::thread::spawn(move || {
+            for s in l.incoming() {
+                let Ok(mut s) = s else { continue };
+                std::thread::spawn(move || {
+                    s.set_read_timeout(Some(Duration::from_secs(3))).ok();
+                    let mut buf = vec![];
+                    let mut tmp = [0u8; 2048];
+                    while !buf.windows(4).any(|w| w == b"\r\n\r\n") {
+                        match s.read(&mut tmp) {
+                            Ok(0) | Err(_) => return,
+                            Ok(n) => buf.extend_from_slice(&tmp[..n]),
+                        }
+                    }
+                    let _ = s.write_all(format!("HTTP/1.1 200 OK\r\nContent-Length: 2\r\nConnection: close\r\n\r\nb{i}").as_bytes());
+                });
+            }
+        });
+    }
+}
+
+fn tcp_accepts(port: u16) -> bool {
+    let a: std::net::SocketAddr = ([127, 0, 0, 1], port).into();
+    std::net::TcpStream::connect_timeout(&a, Duration::from_millis(500)).is_ok()
+}
+
+/// one HTTP/1.1 request through the worker: (status code, last two bytes of the body)
+fn http_get(port: u16, host: &str, path: &str) -> Option<(u16, String)> {
+    let a: std::net::SocketAddr = ([127, 0, 0, 1], port).into();
+    let mut s = std::net::TcpStream::connect_timeout(&a, Duration::from_millis(500)).ok()?;
+    s.set_read_timeout(Some(Duration::from_secs(3))).ok();
+    s.write_all(format!("GET {path} HTTP/1.1\r\nHost: {host}\r\nConnection: close\r\n\r\n").as_bytes()).ok()?;
+    let mut buf = vec![];
+    let mut tmp = [0u8; 4096];
+    loop {
+        match s.read(&mut tmp) {
+            Ok(0) => break,
+            Ok(n) => buf.extend_from_slice(&tmp[..n]),
+            Err(_) => break,
+        }
+        // a complete answer with a known length is enough
+        if let Some(p) = buf.windows(4).position(|w| w == b"\r\n\r\n") {
+            let head = String::from_utf8_lossy(&buf[..p]).to_ascii_lowercase();
+            if let Some(cl) = head.lines().find_map(|l| l.strip_prefix("content-length:").map(|v| v.trim().parse::<usize>().unwrap_or(0))) {
+                if buf.len() >= p + 4 + cl {
+                    break;
+                }
+            }
+        }
+    }
+    let text = String::from_utf8_lossy(&buf).to_string();
+    let code = text.split_whitespace().nth(1)?.parse::<u16>().ok()?;
+    let tail: String = text.chars().rev().take(2).collect::<Vec<_>>().into_iter().rev().collect();
+    Some((code, tail))
+}
+
 struct W {
+    n_listen: usize,
+    n_http: usize,
+    routing_unknown: bool,
+    probes: usize,
+    unknown: Vec<u16>,
     peer: Peer,
     job: Option<std::thread::JoinHandle<()>>,
     _scm: UnixStream,
@@ -169,20 +233,26 @@ fn mk(verb: &str, k: usize, base: u16) -> Option<Request> {
     match verb {
         "AddCluster" => rt(RequestType::AddCluster(Cluster {
             cluster_id: cl,
-            health_check: if bad { Some(HealthCheckConfig { uri: "bad\r\nuri".into(), ..Default::default() }) } else { None },
+            health_check: if bad {
+                Some(HealthCheckConfig { uri: "bad\r\nuri".into(), ..Default::default() })
+            } else if k >= 3 {
+                Some(HealthCheckConfig { uri: "/health".into(), interval: 10, timeout: 5, healthy_threshold: 3, unhealthy_threshold: 3, expected_status: 0 })
+            } else {
+                None
+            },
             ..Default::default()
         })),
         "RemoveCluster" => rt(RequestType::RemoveCluster(cl)),
         "AddBackend" => rt(RequestType::AddBackend(AddBackend {
             cluster_id: cl.clone(),
             backend_id: format!("{cl}-b{}", k % 2),
-            address: addr(base + 100 + (k % 2) as u16),
+            address: addr(base + 4 + (k % 2) as u16),
             ..Default::default()
         })),
         "RemoveBackend" => rt(RequestType::RemoveBackend(RemoveBackend {
             cluster_id: cl.clone(),
             backend_id: format!("{cl}-b{}", k % 2),
-            address: addr(base + 100 + (k % 2) as u16),
+            address: addr(base + 4 + (k % 2) as u16),
         })),
         "AddHttpFrontend" => rt(RequestType::AddHttpFrontend(http_front(addr(base)))),
         "RemoveHttpFrontend" => rt(RequestType::RemoveHttpFrontend(http_front(addr(base)))),
@@ -246,7 +316,7 @@ fn mk(verb: &str, k: usize, base: u16) -> Option<Request> {
             },
         })),
         "RemoveHealthCheck" => rt(RequestType::RemoveHealthCheck(cl)),
-        "SetMaxConnectionsPerIp" => rt(RequestType::SetMaxConnectionsPerIp(k as u64)),
+        "SetMaxConnectionsPerIp" => rt(RequestType::SetMaxConnectionsPerIp(k as u64 + 100)),
         "QueryMaxConnectionsPerIp" => rt(RequestType::QueryMaxConnectionsPerIp(QueryMaxConnectionsPerIp {})),
         "SetMetricDetail" => rt(RequestType::SetMetricDetail(SetMetricDetail {
             client_id: if bad { "x".repeat(500) } else { format!("cli{}", k % 2) },
@@ -296,10 +366,113 @@ fn start(base_port: u16) -> W {
             server.run();
         })
         .unwrap();
-    W { peer: Peer::new(b), job: Some(job), _scm: s2k, base_port, n: 0, master: ConfigState::new() }
+    W { n_listen: 0, n_http: 0, routing_unknown: false, probes: 0, unknown: vec![], peer: Peer::new(b), job: Some(job), _scm: s2k, base_port, n: 0, master: ConfigState::new() }
 }
 
 impl W {
+    /// the behaviour half of the property: what listens and what answers must be what the
+    /// main process' view of the same request sequence says
+    fn probe(&mut self, verb: &str, k: usize, master_ok: bool, worker_ok: bool, out: &mut Out) {
+        let base = self.base_port;
+        let sa = |p: u16| -> std::net::SocketAddr { ([127, 0, 0, 1], p).into() };
+        if verb == "ReturnListenSockets" {
+            // the listen sockets now belong to whoever holds the other end of the SCM socket
+            for p in 0..4 {
+                if !self.unknown.contains(&(base + p)) {
+                    self.unknown.push(base + p);
+                }
+            }
+        }
+        if master_ok != worker_ok && (verb.contains("Frontend") || verb.contains("Backend") || verb.contains("Cluster")) {
+            // the main process would have told its client about the failure; the two sides
+            // no longer hold the same configuration, nothing is claimed about routing any more
+            self.routing_unknown = true;
+            out.note(&format!("routing-divergence: {verb} {k}: main process accepted={master_ok}, worker ok={worker_ok}"));
+        }
+        if verb.contains("Listener") {
+            if master_ok != worker_ok && (verb == "ActivateListener" || verb.starts_with("Add")) {
+                // e.g. the port could not be bound: nothing is claimed about that address any more
+                let p = if verb == "ActivateListener" { base + (k % 3) as u16 } else { base + ["AddHttpListener", "AddHttpsListener", "AddTcpListener", "AddUdpListener"].iter().position(|v| *v == verb).unwrap_or(0) as u16 };
+                if !self.unknown.contains(&p) {
+                    self.unknown.push(p);
+                }
+                out.note(&format!("listener-divergence: {verb} {k}: main process accepted={master_ok}, worker ok={worker_ok}"));
+            }
+            let expect = [
+                (base, self.master.http_listeners.get(&sa(base)).map(|l| l.active).unwrap_or(false)),
+                (base + 1, self.master.https_listeners.get(&sa(base + 1)).map(|l| l.active).unwrap_or(false)),
+                (base + 2, self.master.tcp_listeners.get(&sa(base + 2)).map(|l| l.active).unwrap_or(false)),
+            ];
+            for (port, want) in expect {
+                if self.unknown.contains(&port) {
+                    continue;
+                }
+                self.n_listen += 1;
+                let mut got = tcp_accepts(port);
+                // a session opened by an earlier probe may keep the listener's socket alive for a
+                // moment after the listener is gone: closing is given one second
+                let t0 = Instant::now();
+                while got && !want && t0.elapsed() < Duration::from_secs(1) {
+                    std::thread::sleep(Duration::from_millis(10));
+                    got = tcp_accepts(port);
+                }
+                if got != want {
+                    out.viol("listen-mismatch", &format!("after {verb} {k}: 127.0.0.1:+{} {} connections, the main process' view says the listener is {}",
+                                                          port - base, if got { "accepts" } else { "refuses" }, if want { "active" } else { "absent or inactive" }));
+                }
+            }
+        }
+        let routing = matches!(verb, "AddHttpFrontend" | "RemoveHttpFrontend" | "AddBackend" | "RemoveBackend" | "AddCluster" | "RemoveCluster" | "ActivateListener");
+        let http_up = self.master.http_listeners.get(&sa(base)).map(|l| l.active).unwrap_or(false) && !self.unknown.contains(&base);
+        if routing && http_up && !self.routing_unknown && self.probes < 8 {
+            self.probes += 1;
+            for host in ["a.test", "b.test", "x.w.test"] {
+                // the frontends of this listener that match, longest prefix first
+                let path = "/api/x";
+                let mut best: Vec<(usize, Option<String>)> = vec![];
+                for f in self.master.http_fronts.values() {
+                    if f.address != sa(base) || f.method.is_some() {
+                        continue;
+                    }
+                    let host_ok = f.hostname == host || (f.hostname.starts_with("*.") && host.ends_with(&f.hostname[1..]) && !host[..host.len() - f.hostname.len() + 1].contains('.'));
+                    if !host_ok || f.path.kind != 0 || !path.starts_with(&f.path.value) {
+                        continue;
+                    }
+                    best.push((f.path.value.len(), f.cluster_id.clone()));
+                }
+                let longest = best.iter().map(|b| b.0).max();
+                let clusters: Vec<Option<String>> = best.iter().filter(|b| Some(b.0) == longest).map(|b| b.1.clone()).collect();
+                let mut allowed: Vec<(u16, String)> = vec![];
+                if clusters.is_empty() {
+                    allowed.push((404, String::new()));
+                }
+                for c in &clusters {
+                    match c {
+                        None => allowed.push((401, String::new())),
+                        Some(c) => {
+                            let bs = self.master.backends.get(c).cloned().unwrap_or_default();
+                            if bs.is_empty() {
+                                allowed.push((503, String::new()));
+                            }
+                            for b in bs {
+                                allowed.push((200, format!("b{}", b.address.port().wrapping_sub(base + 4))));
+                            }
+                        }
+                    }
+                }
+                self.n_http += 1;
+                let got = http_get(base, host, path).or_else(|| http_get(base, host, path));
+                let ok = match &got {
+                    Some((code, tail)) => allowed.iter().any(|(c, t)| c == code && (*c != 200 || t == tail)),
+                    None => false,
+                };
+                if !ok {
+                    out.viol("route-mismatch", &format!("after {verb} {k}: GET {path} for {host} answered {:?}, the main process' view allows {:?}", got, allowed));
+                }
+            }
+        }
+    }
+
     fn send(&mut self, id: &str, req: &Request) -> bool {
         let wr = WorkerRequest { id: id.to_string(), content: req.clone() };
         self.peer.send(&wr.encode_to_vec())
@@ -342,11 +515,12 @@ impl W {
 fn run(case: &Case, out: &mut Out) {
     let mut w: Option<W> = None;
     let mut dead = false;
-    let shard_base = 21000 + ((std::process::id() % 1500) as u16) * 20;
     for op in &case.ops {
         match op.name.as_str() {
             "worker" => {
-                w = Some(start(shard_base));
+                let base = pick_base();
+                start_backends(base);
+                w = Some(start(base));
                 out.obs(&[]);
             }
             "send" => {
@@ -376,8 +550,9 @@ fn run(case: &Case, out: &mut Out) {
                         if fin != 1 {
                             out.viol(if fin == 0 { "no-answer" } else { "two-answers" }, &format!("{verb} {k}: {fin} final answers (statuses {statuses:?}), {pr} processing"));
                         }
-                        let _ = master_ok;
                         out.obs(&[tn(fin), tn(pr)]);
+                        let worker_ok = statuses.first() == Some(&OK);
+                        wk.probe(&verb, k, master_ok, worker_ok, out);
                     }
                     None => {
                         dead = true;
@@ -506,6 +681,7 @@ fn run(case: &Case, out: &mut Out) {
             }
             "end" => {
                 if let Some(mut wk) = w.take() {
+                    out.note(&format!("probes: {} connect, {} http", wk.n_listen, wk.n_http));
                     if !dead {
                         wk.n += 1;
                         let id = format!("REQ-{}", wk.n);
@@ -533,6 +709,23 @@ fn run(case: &Case, out: &mut Out) {
             }
         }
     }
+}
+
+static NEXT_BLOCK: std::sync::atomic::AtomicUsize = std::sync::atomic::AtomicUsize::new(0);
+
+/// a block of 8 ports below the ephemeral range that nobody is using right now (a worker
+/// run in a thread never closes its listen sockets, so every case takes a fresh block)
+fn pick_base() -> u16 {
+    let pid = std::process::id() as usize;
+    for _ in 0..2700 {
+        let n = NEXT_BLOCK.fetch_add(1, std::sync::atomic::Ordering::Relaxed);
+        let base = 10000 + (((pid * 61 + n) % 2700) as u16) * 8;
+        let free = (0u16..6).all(|d| std::net::TcpListener::bind(("127.0.0.1", base + d)).is_ok());
+        if free {
+            return base;
+        }
+    }
+    panic!("no free port block");
 }
 
 fn main() {
